@@ -91,6 +91,7 @@ void harness(void) {
     int calls0 = vs.ncalls;
     err = NULL;
     vs_begin_call(FAULTS, VS_M_EINTR | VS_M_EAGAIN);
+    vs.nb_call = !R.blocking;
     vs.env_kind = VS_ENV_NONE; vs.env_fired = 0;
     switch (op) {
     case 0: {   /* bind */
